@@ -646,7 +646,9 @@ func (e *Engine) applyContractSig(st *State, fr *Frame, x *ssa.Call, name string
 		} else {
 			lbl = name + "." + lbl
 		}
+		pre.goal = true
 		g := pre.evalBool(r.E)
+		pre.goal = false
 		e.oblige(st, "pre@call", lbl, ord, g, "precondition of "+name+": "+r.Text, pos)
 	}
 	oldHeaps := copyHeaps(st.heaps)
